@@ -586,13 +586,12 @@ Proof. exact from_bigint_w_eq. Qed.
 (* ---------------- non-vacuity: concrete inputs satisfying the hypotheses ---------------- *)
 (* p = 13 (one limb, spare bit): 5 + 11 = 3, 5 - 11 = 7, 2 * 11 = 9, -5 = 8 *)
 Example GenLimb_mont_small_example :
-  wf [13] /\ wf [5] /\ wf [11] /\ val [5] < val [13] /\ val [11] < val [13] /\ val [13] mod 2 = 1 /\
+  val [5] < val [13] /\ val [11] < val [13] /\ val [13] mod 2 = 1 /\
   gen_mont_add_assign_1 (has_spare_bit [13]) 13 5 11 = [3] /\
   gen_mont_sub_assign_1 13 5 11 = [7] /\
   gen_mont_double_in_place_1 (has_spare_bit [13]) 13 11 = [9] /\
   gen_mont_neg_in_place_1 13 5 = [8].
-Proof. vm_compute. repeat split; try reflexivity; try (intro; discriminate);
-  repeat constructor; try reflexivity; try (intro; discriminate). Qed.
+Proof. vm_compute. repeat split; reflexivity. Qed.
 (* two limbs, modulus 2^128 - 159 WITHOUT a spare bit (plain CIOS branch with carry-aware subtraction):
    (p-1)^2 * R^-1 and the round trip through Montgomery form *)
 Example GenLimb_mont_no_spare_bit_example :
